@@ -3,7 +3,8 @@
    decoder's rules (RFC 7932 sections 4, 8, 9.3, 10).  Written without looking at
    process_command_queue; the static dictionary and the 121 transforms are Section parameters
    (instantiated in the extracted driver from brotli-decompressor's dictionary/mod.rs and
-   transform.rs).  Bytes are N below 256; histories are kept newest-first. *)
+   transform.rs).  Bytes are N below 256; histories are kept newest-first (rev_append l l' = rev l ++ l',
+   used instead of rev because the extracted rev is quadratic). *)
 From Coq Require Import NArith ZArith List Bool.
 From V Require Import model.Arith.
 Import ListNotations.
@@ -89,9 +90,9 @@ Definition dict_expand (word_size word_id t : N) : option (list N) :=
         the part of the meta-block input not yet covered, and its length ---- *)
 Record rstate := { hist : list N; produced : N; pos : N; rest : list N; remaining : N }.
 Definition rinit (pre mb : list N) : rstate :=
-  {| hist := rev pre; produced := N.of_nat (length pre); pos := 0; rest := mb; remaining := N.of_nat (length mb) |}.
+  {| hist := rev_append pre []; produced := N.of_nat (length pre); pos := 0; rest := mb; remaining := N.of_nat (length mb) |}.
 Definition emit (bytes : list N) (n : N) (s : rstate) : rstate :=
-  {| hist := rev bytes ++ hist s; produced := produced s + n; pos := pos s + n;
+  {| hist := rev_append bytes (hist s); produced := produced s + n; pos := pos s + n;
      rest := skipn (N.to_nat n) (rest s); remaining := remaining s - n |}.
 Definition emit_copy (d n : N) (s : rstate) : rstate :=
   {| hist := copy_fast (N.to_nat n) (N.to_nat d) (hist s); produced := produced s + n; pos := pos s + n;
@@ -125,7 +126,7 @@ Fixpoint ir_run (cs : list ir_cmd) (s : rstate) : res rstate :=
   end.
 
 (* bytes the replay produced for this meta-block, oldest first *)
-Definition produced_here (s : rstate) : list N := rev (firstn (N.to_nat (pos s)) (hist s)).
+Definition produced_here (s : rstate) : list N := rev_append (firstn (N.to_nat (pos s)) (hist s)) [].
 
 (* the property of one IR list: it replays, over `pre` (custom dictionary and everything replayed
    before), to exactly the meta-block input `mb`; every copy stays inside what has been produced,
@@ -142,21 +143,26 @@ Definition ring_push (ring : list Z) (d : Z) : list Z := d :: firstn 3 ring.
 
 Definition cmd_step (lgwin nd np : N) (c : command) (st : rstate * list Z) : res (rstate * list Z) :=
   let (s, ring) := st in
+  if remaining s =? 0 then Err ECmdTrailing else      (* the meta-block is already complete *)
   let ins := insert_len_ c in
   if remaining s <? ins then Err ECmdInsertOverrun else
   let s1 := emit (firstn (N.to_nat ins) (rest s)) ins s in
-  if remaining s1 =? 0 then Ok (s1, ring)          (* MLEN reached: the copy part is not executed *)
+  let cl := cmd_copy_len_code c in
+  let (idx, off) := distance_index_and_offset (dist_prefix_ c) (dist_extra_ c) nd np in
+  let dist := if idx =? 0 then off else (ring_get ring (idx - 1) + off)%Z in
+  let maxd := N.min (produced s1) (2 ^ lgwin - 16) in
+  if remaining s1 =? 0 then
+    (* MLEN reached: a decoder does not execute the copy part.  The encoder leaves there either
+       Command::init_insert's (copy code 4, distance 1) or the all-zero command of an uncompressed
+       meta-block; all that is required is that it does not denote a dictionary reference. *)
+    if (0 <=? dist)%Z && (dist <=? Z.of_N maxd)%Z then Ok (s1, ring) else Err ECmdDistance
   else
-    let cl := cmd_copy_len_code c in
-    let (idx, off) := distance_index_and_offset (dist_prefix_ c) (dist_extra_ c) nd np in
-    let dist := if idx =? 0 then off else (ring_get ring (idx - 1) + off)%Z in
-    if (dist <=? 0)%Z then Err ECmdDistance else
+    if (dist <=? 0)%Z || (2 ^ 62 <=? dist)%Z then Err ECmdDistance else
     let d := Z.to_N dist in
-    let maxd := N.min (produced s1) (2 ^ lgwin - 16) in
     if d <=? maxd then
       if remaining s1 <? cl then Err ECmdCopyOverrun else
       let s2 := emit_copy d cl s1 in
-      if negb (list_eqb (firstn (N.to_nat cl) (hist s2)) (rev (firstn (N.to_nat cl) (rest s1)))) then Err ECmdMismatch else
+      if negb (list_eqb (firstn (N.to_nat cl) (hist s2)) (rev_append (firstn (N.to_nat cl) (rest s1)) [])) then Err ECmdMismatch else
       Ok (s2, if (idx =? 1) && (off =? 0)%Z then ring else ring_push ring dist)
     else
       let o := d - maxd - 1 in
